@@ -201,9 +201,21 @@ def loopOp (toks : List String) : Option String := do
   let acts := (List.range rows.length).map (Rl4co.Eval.rowActions out.1)
   pure s!"steps={out.1.length} actions={";".intercalate (acts.map natsStr)}"
 
+/-- `aug.narindex | B_1 S_1 B_2 S_2 … B S` — a history of `(B, S)` calls followed by the current one: the index the current
+call gets from the (extracted) memoisation, and the fresh index -/
+def narIndexOp (toks : List String) : Option String := do
+  let xs ← nats toks
+  let rec pairs : List Nat → List (Nat × Nat)
+    | b :: s :: t => (b, s) :: pairs t
+    | _ => []
+  let ps := pairs xs
+  let (B, S) ← ps.getLast?
+  let hist := ps.dropLast
+  pure s!"cached={natsStr (Rl4co.Eval.narCachedIndex Params.augNarIndexKeyHasBoth hist B S)} fresh={natsStr (Rl4co.Eval.narIndex B S)}"
+
 def handlers : List (String × (List String → Option String)) :=
   [("aug.dihedral", dihedralOp), ("aug.sym", symOp), ("aug.symraw", symRawOp), ("aug.normalize", normalizeOp), ("aug.cache", cacheOp), ("aug.swap", swapOp), ("aug.cost", costOp),
-   ("aug.inner", innerOp), ("aug.callseq", callSeqOp), ("aug.select", selectOp), ("aug.concat", concatOp), ("aug.chunks", chunksOp),
+   ("aug.inner", innerOp), ("aug.narindex", narIndexOp), ("aug.callseq", callSeqOp), ("aug.select", selectOp), ("aug.concat", concatOp), ("aug.chunks", chunksOp),
    ("aug.loop", loopOp)]
 
 end Rl4co.Driver.Aug
